@@ -136,15 +136,35 @@ def h_raw_header_short(a: int, b: int, body: str) -> bool:
     return got == [text[:105]] + ref_lines(body + '~', '~')
 
 
-def h_raw_delims(st: str, et: str, ct: str) -> bool:
+WHICH = P('which', 'seg')
+
+
+def h_raw_delims(d: str, k: int) -> bool:
     '''
-    pre: _delims_ok(st, et, ct)
+    pre: DELIM.fullmatch(d) is not None
+    pre: 0 <= k < 3
+    pre: d != OTHERS[k][0] and d != OTHERS[k][1]
     post: _
     '''
-    # all three delimiters symbolic: they are taken from the header positions 105, 3, 104
+    # one delimiter symbolic (any non-alphanumeric character), the two others chosen symbolically from three pairs:
+    # the delimiters are taken from the header positions 105 (segment), 3 (element), 104 (component)
+    a, b = OTHERS[k]
+    if WHICH == 'ele':
+        # the element separator occurs 16 times inside the header: as a symbolic character it costs z3 > 900 s; it is chosen from a table
+        d = ELE_TABLE[ord(d) % 5]
+    if WHICH == 'seg':
+        st, et, ct = d, a, b
+    elif WHICH == 'ele':
+        st, et, ct = a, d, b
+    else:
+        st, et, ct = a, b, d
     text = isa_text(st, et, ct) + 'GS' + et + 'A' + st
     r = RawX12File(Stream(text, []))
     return (r.seg_term == st and r.ele_term == et and r.subele_term == ct and list(r) == [text[:105], 'GS' + et + 'A'])
+
+
+OTHERS = (('~', '*'), ('|', '^'), ('!', ':'))
+ELE_TABLE = ('+', '&', '\x1d', '%', '/')
 
 
 def _ref_split(s, et, ct, is_isa):
@@ -302,7 +322,8 @@ for bs in (1, 2, 3):
 OBLIGATIONS.append(_ob('raw_header_short', 'h_raw_header_short', 'quick', 900, bs=2))
 for bs in (1, 2, 3):
     OBLIGATIONS.append(_ob('raw_linebreak_bs%d' % bs, 'h_raw_linebreak', 'quick', 1200, bs=bs))
-OBLIGATIONS.append(_ob('raw_delims', 'h_raw_delims', 'quick', 600))
+for w in ('seg', 'ele', 'sub'):
+    OBLIGATIONS.append(_ob('raw_delims_%s' % w, 'h_raw_delims', 'quick', 900, which=w, bs=8))
 for ns in (0, 1, 2, 3, 4):
     OBLIGATIONS.append(_ob('segment_split_len%d' % ns, 'h_segment_split', 'quick' if ns <= 3 else 'thorough', 900, ns=ns))
     OBLIGATIONS.append(_ob('segment_format_len%d' % ns, 'h_segment_format', 'quick' if ns <= 3 else 'thorough', 900, ns=ns))
@@ -313,7 +334,7 @@ OBLIGATIONS.append(_ob('source_kind', 'h_source_kind', 'quick', 600, bs=3))
 LEVEL = 'other'
 EXPLANATION = __doc__
 BOUNDS = ('raw layer: body of exactly 0..3 (4 thorough) arbitrary characters after the header, buffer size 1..3, the first three reads short by a symbolic '
-          'amount (header read included), segment terminator any non-alphanumeric character; all three delimiters symbolic in raw_delims; '
+          'amount (header read included), segment terminator any non-alphanumeric character; each delimiter in turn symbolic (any non-alphanumeric character) with the other two from three pairs; '
           'segment layer: every segment text of 0..3 (4 thorough) characters after the id, with and without the ISA rule; reader layer: 0..2 leading blanks + one line of <= 2 (3) characters over the structural alphabet {A, I, *, :} + optional trailing separator.')
 OUTSIDE = ('bodies longer than 4 characters and buffer sizes other than 1..3 (the code is parametric in the size: it only passes it to read(), checked on the AST); '
            'more than three short reads; byte/encoding errors of real files; the `open` contract is the stub described in ASSUMPTIONS.')
